@@ -56,20 +56,20 @@ func gatedPair(o int, a, b Req, traced bool) (gotA, refA, gotB, refB string, err
 		}
 		return execOnce(env, r).Resp
 	}
-	fa, err := newEnv(o, true)
+	fa, err := newEnv(o, true, a.Env)
 	if err != nil {
 		return
 	}
 	refA = run(fa, a)
 	fa.Close()
-	fb, err := newEnv(o, true)
+	fb, err := newEnv(o, true, b.Env)
 	if err != nil {
 		return
 	}
 	refB = run(fb, b)
 	fb.Close()
 
-	env, err := newEnv(o, true)
+	env, err := newEnv(o, true, a.Env)
 	if err != nil {
 		return
 	}
